@@ -21,6 +21,7 @@ def one(sid):
     meta = json.load(open(os.path.join(d, "meta.json")))
     prop = meta.get("property")
     checks = [prop] + [c for c, v in (meta.get("checks_run") or {}).items() if v.get("detected") and c != prop]
+    checks += [c for c in meta.get("extra_checks", []) if c not in checks]
     scr = tempfile.mkdtemp(prefix="seedrepo_")
     try:
         run("git -C /repo archive HEAD | tar -x -C %s" % scr)
@@ -35,6 +36,11 @@ def one(sid):
             rc, out = run("./check %s --tier quick" % c, cwd=ROOT, env=dict(G3DVC_REPO=scr, G3DVC_NPROC=str(max(4, 16 // jobs)), G3DVC_EVIDENCE_DIR=os.path.join(ROOT, "work", "evidence-of-changed-trees")))
             det[c] = (rc, len([l for l in out.splitlines() if l.startswith("VIOLATION")]))
         print(sid, "demo", demo, det, flush=True)
+        if os.environ.get("SEED_UPDATE_META"):
+            cr = meta.setdefault("checks_run", {})
+            for c, (rc, n) in det.items():
+                cr[c] = dict(detected=(rc == 1 and n > 0), exit=rc, violations=n)
+            json.dump(meta, open(os.path.join(d, "meta.json"), "w"), indent=1)
         return (sid, prop, "demo exit %d" % demo, det)
     finally:
         shutil.rmtree(scr, ignore_errors=True)
@@ -42,7 +48,7 @@ sids = [s for s in sorted(os.listdir(os.path.join(ROOT, "seeded"))) if os.path.i
 with ThreadPoolExecutor(max_workers=jobs) as ex:
     rows = list(ex.map(one, sids))
 run("rm -rf %s/replays" % ROOT)
-with open(os.path.join(ROOT, "seeded", "REGRESSION.md"), "w") as fh:
+with open(os.path.join(ROOT, "seeded", "REGRESSION.md" if not flt else "REGRESSION-partial.md"), "w") as fh:
     head = subprocess.run("git -C /repo log --oneline -1", shell=True, capture_output=True, text=True).stdout.strip()
     vh = subprocess.run("git -C /verif log --oneline -1", shell=True, capture_output=True, text=True).stdout.strip()
     fh.write("# Seeded changes re-run against the current HEAD of /repo (scratch copy)\n\n/repo HEAD: %s; /verif HEAD at the start of the run: %s\n\n| seed | property given | demo on HEAD+seed | checks (exit, violations) | detected |\n|---|---|---|---|---|\n" % (head, vh))
